@@ -84,7 +84,9 @@ ObjectFnNames == {ObjectFns[i].f : i \in 1..Len(ObjectFns)}
 Id_ObjectFn(i) == 28 + i         \* after the native error constructors and prototypes (17..28)
 Id_Eval == 28 + Len(ObjectFns) + 1
 Id_CB == Id_Eval + 1
-Id_Thrower == Id_CB + 1
+Id_SL == Id_CB + 1
+Id_Thrower == Id_SL + 1
+S_SL == <<83, 76>>
 S_CB == <<67, 66>>
 S_defineProperties == <<100,101,102,105,110,101,80,114,111,112,101,114,116,105,101,115>>
 
@@ -578,6 +580,10 @@ CallIn(st, f, thisV, args) ==
                           ELSE IF g.d.k # "data" THEN Und(st)                 \* an accessor: not modelled here
                           ELSE IF g.d.v.t = "unmodelled" THEN Ok(st, BoolV(TRUE))
                           ELSE Ok(st, BoolV(g.d.v.t = "str" /\ g.d.v.s # <<>>))
+          [] fn.k = "hostlimit" ->          \* SetStackDepthLimit from a host function: the limit counts from the bottom of the
+                                            \* stack, whatever the depth at which it is configured
+                (LET n == SeqGet(args, 1)
+                 IN  IF n.t = "num" /\ n.n.c = "int" /\ n.n.v >= 0 THEN Ok([st EXCEPT !.limit = n.n.v], Undef) ELSE Und(st))
           [] fn.k = "thrower" -> ThrowErr(st, S_TypeError)                    \* 13.2.3 step 8
           [] fn.k = "bound" -> Call(st, fn.target, fn.this, fn.args \o args)
           [] fn.k = "builtin" ->
@@ -1198,6 +1204,8 @@ BaseObjects ==
     \o <<Builtin("eval")>>                                                         \* Id_Eval: the global eval function (15.1.2.1)
     \o <<[OM!NewObj("Function", FunctionProto) EXCEPT !.fn = [k |-> "hostcb"]]>>   \* Id_CB: the host function CB(f): an API call
                                                                                   \* (Value.Call) made by Go code while a script runs
+    \o <<[OM!NewObj("Function", FunctionProto) EXCEPT !.fn = [k |-> "hostlimit"]]>>   \* Id_SL: the host function SL(n): Go code that
+                                                                                  \* configures the stack depth limit while a script runs
     \o <<[OM!NewObj("Function", FunctionProto) EXCEPT !.fn = [k |-> "thrower"], !.ext = FALSE]>>   \* Id_Thrower: the unique
                                                                                   \* [[ThrowTypeError]] function object (13.2.3)
 
@@ -1239,7 +1247,8 @@ Heap0 ==
                        GlobalObj, S_Infinity, NumV(PInf), FALSE, FALSE, FALSE)
         h17 == W(h16, GlobalObj, S_H, ObjV(HostH))
         h17e == W(DefData(W(h17, GlobalObj, S_eval, ObjV(Id_Eval)), Id_Eval, S_length, IntV(1), FALSE, FALSE, FALSE), GlobalObj, S_CB, ObjV(Id_CB))
-        h18 == DefAll(h17e, GlobalObj, <<S_Function, S_Array, S_String, S_Number, S_Boolean, S_Date, S_RegExp,
+        h17f == W(h17e, GlobalObj, S_SL, ObjV(Id_SL))
+        h18 == DefAll(h17f, GlobalObj, <<S_Function, S_Array, S_String, S_Number, S_Boolean, S_Date, S_RegExp,
                                          S_Math, S_JSON, S_parseInt, S_parseFloat, S_isNaN, S_isFinite, S_console>>, UM)
         RECURSIVE WireObjectFns(_, _)
         WireObjectFns(H, j) ==
